@@ -45,6 +45,11 @@ func (s Step) String() string {
 		return fmt.Sprintf("advance %v", s.D)
 	case "stall":
 		return "broker stops reading"
+	case "fail-broker-writes":
+		if s.D > 0 {
+			return "every later gateway->broker write fails"
+		}
+		return "the next gateway->broker write fails"
 	case "fail-sends":
 		if s.D > 0 {
 			return "every later gateway->client datagram write fails"
@@ -176,6 +181,13 @@ func execSteps(w *world.World, s *world.Session, b *world.Broker, steps []Step) 
 		case "stall":
 			w.Tr.Add(s.ID, world.Note, nil, "broker stops reading (link capacity 2048 bytes)")
 			s.StallBroker(2048)
+		case "fail-broker-writes":
+			w.Tr.Add(s.ID, world.Note, nil, st.String())
+			if st.D > 0 {
+				s.FailBrokerWrites(1 << 30)
+			} else {
+				s.FailBrokerWrites(1)
+			}
 		case "fail-sends":
 			// D > 0: every later write fails; D == 0: only the next one
 			all := st.D > 0
